@@ -60,9 +60,9 @@ def node_obs(n) -> Any:
 
 
 # ------------------------------------------------------------------------------------------ topologies
-def _host(cls, name, ip, gw, **kw):
+def _host(cls, name, ip, gw, shut=2):
     cfg = {"type": cls.__name__.lower(), "hostname": name, "ip_address": ip, "subnet_mask": "255.255.255.0",
-           "start_up_duration": 0, "shut_down_duration": kw.get("shut", 2)}
+           "start_up_duration": 0, "shut_down_duration": shut}
     if gw:
         cfg["default_gateway"] = gw
     h = cls.from_config(cfg)
@@ -80,6 +80,7 @@ def build(sc: dict):
     from primaite.simulator.sim_container import Simulation
     sim = Simulation()
     net = sim.network
+    shut = sc.get("shut", 2)  # shut_down_duration of every node; 0 = immediate power-off (C12's repair of F-14)
     N: Dict[str, Any] = {}
     links: Dict[str, Any] = {}
 
@@ -90,7 +91,7 @@ def build(sc: dict):
 
     def sw(name, ports=6):
         s = Switch.from_config({"type": "switch", "hostname": name, "num_ports": ports, "start_up_duration": 0,
-                                "shut_down_duration": 2})
+                                "shut_down_duration": shut})
         s.power_on()
         return add(s)
 
@@ -102,7 +103,7 @@ def build(sc: dict):
     fam = sc["family"]
     if fam == "switched":
         b_ip = "10.0.1.20"
-        add(_host(Computer, "A", A_IP, None)); add(_host(Computer, "C", C_IP, None)); add(_host(Server, "B", b_ip, None))
+        add(_host(Computer, "A", A_IP, None, shut)); add(_host(Computer, "C", C_IP, None, shut)); add(_host(Server, "B", b_ip, None, shut))
         sw("SW1"); sw("SW2")
         link("A", 1, "SW1", 1, "A-SW1"); link("C", 1, "SW1", 2, "C-SW1"); link("SW1", 6, "SW2", 6, "SW1-SW2")
         link("B", 1, "SW2", 1, "SW2-B")
@@ -110,16 +111,16 @@ def build(sc: dict):
     elif fam == "routed":
         hops = sc.get("routers", 1)
         b_ip = "10.0.2.20"
-        add(_host(Computer, "A", A_IP, "10.0.1.1")); add(_host(Computer, "C", C_IP, "10.0.1.1"))
-        add(_host(Server, "B", b_ip, "10.0.2.1"))
+        add(_host(Computer, "A", A_IP, "10.0.1.1", shut)); add(_host(Computer, "C", C_IP, "10.0.1.1", shut))
+        add(_host(Server, "B", b_ip, "10.0.2.1", shut))
         sw("SW1"); sw("SW2")
-        r1 = Router.from_config({"type": "router", "hostname": "R1", "num_ports": 3, "start_up_duration": 0, "shut_down_duration": 2})
+        r1 = Router.from_config({"type": "router", "hostname": "R1", "num_ports": 3, "start_up_duration": 0, "shut_down_duration": shut})
         r1.power_on(); add(r1)
         r1.configure_port(1, "10.0.1.1", "255.255.255.0")
         if hops == 1:
             r1.configure_port(2, "10.0.2.1", "255.255.255.0")
         else:
-            r2 = Router.from_config({"type": "router", "hostname": "R2", "num_ports": 3, "start_up_duration": 0, "shut_down_duration": 2})
+            r2 = Router.from_config({"type": "router", "hostname": "R2", "num_ports": 3, "start_up_duration": 0, "shut_down_duration": shut})
             r2.power_on(); add(r2)
             r1.configure_port(2, "10.0.9.1", "255.255.255.252")
             r2.configure_port(1, "10.0.9.2", "255.255.255.252")
@@ -141,7 +142,7 @@ def build(sc: dict):
     elif fam == "firewall":
         zones = {"ext": ("10.0.1", 1), "int": ("10.0.2", 2), "dmz": ("10.0.3", 3)}
         za, zb = sc["a_zone"], sc["b_zone"]
-        fw = Firewall.from_config({"type": "firewall", "hostname": "FW", "start_up_duration": 0, "shut_down_duration": 2})
+        fw = Firewall.from_config({"type": "firewall", "hostname": "FW", "start_up_duration": 0, "shut_down_duration": shut})
         fw.power_on(); add(fw)
         for z, (pre, port) in zones.items():
             fw.configure_port(port, pre + ".1", "255.255.255.0")
@@ -151,8 +152,8 @@ def build(sc: dict):
         pa, pb = zones[za][0], zones[zb][0]
         global_a = pa + ".10"
         b_ip = pb + ".20"
-        add(_host(Computer, "A", global_a, pa + ".1")); add(_host(Computer, "C", pa + ".11", pa + ".1"))
-        add(_host(Server, "B", b_ip, pb + ".1"))
+        add(_host(Computer, "A", global_a, pa + ".1", shut)); add(_host(Computer, "C", pa + ".11", pa + ".1", shut))
+        add(_host(Server, "B", b_ip, pb + ".1", shut))
         sw("SW1"); sw("SW2")
         link("A", 1, "SW1", 1, "A-SW1"); link("C", 1, "SW1", 2, "C-SW1"); link("SW1", 6, "FW", zones[za][1], "SW1-FW")
         link("FW", zones[zb][1], "SW2", 6, "FW-SW2"); link("B", 1, "SW2", 1, "SW2-B")
@@ -638,6 +639,8 @@ def gen_scenario(rng: Rng, max_ops: int = 8) -> dict:
             sc["missing_links"] = [name]
         else:
             sc["remove"] = name
+    if sc["block"].endswith("_off"):
+        sc["shut"] = rng.choice([0, 2])
     n_pre = 0 if sc["block"] == "missing_link" or rng.chance(1, 3) else rng.range(1, max_ops // 2)
     pre_pool = ["ping", "db_connect", "term_login", "c2_establish", "port_scan_tcp", "c_ping", "db_query", "ftp_send", "tick"]
     sc["pre_ops"] = [rng.choice(pre_pool) for _ in range(n_pre)]
